@@ -180,7 +180,7 @@ func resStr(ok string, err error, panicked bool) string {
 }
 
 // frame <fmt> <aid> <tid> <val>|<val>|…: marshal back to back into one stream with one Marshaller, read back with one Unmarshaller
-func opFrame(p []string) string {
+func opFrame(p []string, separate bool) string {
 	a := atlasByID(p[1])
 	id, _ := strconv.Atoi(p[2])
 	t := typeByID[id]
@@ -203,7 +203,7 @@ func opFrame(p []string) string {
 		if e != nil || pn {
 			return "I=marshal-failed O=ok"
 		}
-		if p[0] == "json" {
+		if p[0] == "json" && separate {
 			stream.WriteByte('\n') // JSON numbers are not self-delimiting: items are separated by whitespace
 		}
 	}
